@@ -280,6 +280,50 @@ def lookup_shape(run):
     return sentinel, not probs, probs
 
 
+ENTRY_FUNCS = ("getCount", "doesIdExist", "doesNameExist", "getIdFromName", "getName", "callById", "callByName")
+
+
+def entry_points(run):
+    """Every way from a name / id / CFG->output to a call must be one of the modelled entry points.
+    -> (entries_ok, dispatch_recognised, problems)"""
+    import glob
+    probs = []
+    dispatch_ok = False
+    for _, _, kind in KINDS:
+        r = "snoopy_%sregistry" % kind
+        path = "src/%sregistry.c" % kind
+        src = strip_comments(run.src(path))
+        allowed = set("%s_%s" % (r, f) for f in ENTRY_FUNCS)
+        if kind == "output":
+            allowed.add(r + "_dispatch")
+        found = re.findall(r"^[A-Za-z_][\w \t\*]*?\b(\w+)\s*\([^;{}]*\)\s*\{", src, re.M)
+        for fn in found:
+            if fn not in allowed:
+                probs.append("%s defines a function that is not a modelled entry point: %s" % (path, fn))
+        for fn in allowed:
+            if found.count(fn) != 1:
+                probs.append("%s: %s defined %d times" % (path, fn, found.count(fn)))
+        for m in re.finditer(r"^[ \t]*#[ \t]*define[ \t]+(\w+)\(", src, re.M):
+            probs.append("%s defines a function-like macro: %s" % (path, m.group(1)))
+        if kind == "output":
+            b = squeeze(def_body(src, r + "_dispatch"))
+            if re.fullmatch(r"(?:const)?snoopy_configuration_t(?:const)?\*CFG;CFG=snoopy_configuration_get\(\);"
+                            r"return%s_callByName\(CFG->output,logMessage,CFG->output_arg\);" % r, b):
+                dispatch_ok = True
+            else:
+                probs.append("%s_dispatch: not `return callByName(CFG->output, logMessage, CFG->output_arg)`" % r)
+    # nobody else may index the arrays
+    own = set(os.path.join(run.tree, "src", "%sregistry.c" % kind) for _, _, kind in KINDS)
+    for f in sorted(glob.glob(os.path.join(run.tree, "src", "**", "*.[ch]"), recursive=True)):
+        if f in own:
+            continue
+        t = strip_comments(open(f, encoding="utf-8", errors="replace").read())
+        m = re.search(r"\bsnoopy_(?:datasource|filter|output)registry_(?:ptrs|names)\b", t)
+        if m:
+            probs.append("%s refers to %s outside its registry file" % (os.path.relpath(f, run.tree), m.group(0)))
+    return not probs, dispatch_ok, probs
+
+
 # ------------------------------------------------------------------------------------ configure.ac
 def configure_switches(run):
     """-> (feature guards, generic guards, config.h.in feature templates, notes)"""
@@ -420,6 +464,9 @@ def tr_registry(run):
     sentinel, lookup_ok, probs = lookup_shape(run)
     for p in probs:
         notes.append("translator: " + p)
+    entries_ok, dispatch_ok, probs = entry_points(run)
+    for p in probs:
+        notes.append("translator: " + p)
     feats, generic, hin, n2 = configure_switches(run)
     notes += n2
     opts = tr_options(run, notes)
@@ -431,15 +478,16 @@ def tr_registry(run):
     text = ("(* GENERATED from the current working tree by vlib/tr_registry.py -- do not edit *)\n"
             "From Coq Require Import String List.\nFrom Snoopy Require Import Registry.Model Registry.Options.\nImport ListNotations.\nLocal Open Scope string_scope.\n\n"
             + "".join("Definition %s : registry :=\n  %s.\n\n" % (k, reg_term(regs[k])) for k, _, _ in KINDS)
-            + "Definition consts : registry_consts :=\n  {| rc_sentinel := %s;\n     rc_lookup_ok := %s;\n     rc_ds := ds; rc_flt := flt; rc_out := out;\n"
+            + "Definition consts : registry_consts :=\n  {| rc_sentinel := %s;\n     rc_lookup_ok := %s;\n     rc_entries_ok := %s;\n     rc_dispatch := %s;\n     rc_ds := ds; rc_flt := flt; rc_out := out;\n"
               "     rc_configure_features := %s;\n     rc_configure_generic := %s;\n     rc_confighin := %s |}.\n"
             % (coq_str(sentinel if sentinel is not None else ""), "true" if lookup_ok else "false",   # unrecognised: lookup_ok is false, "" keeps the model runnable
+               "true" if entries_ok else "false", "DispatchCallByName" if dispatch_ok else "DispatchOther",
                coq_list(coq_str(g) for g in feats), coq_list(coq_str(g) for g in generic), coq_list(coq_str(g) for g in hin)))
     text += ("\n(* EXTENSION: option registry of src/configfile.c (guards rewritten to the configure switch they are derived from in snoopy.h) *)\n"
              "Definition options : opt_registry :=\n  {| o_rows := %s;\n     o_sentinel := %s;\n     o_lex_ok := %s;\n     o_lookup_ok := %s |}.\n"
              % (coq_optrows(opts["rows"]), coq_str(opts["sentinel"] or ""), "true" if opts["lex_ok"] else "false", "true" if opts["lookup_ok"] else "false"))
     run.write_gen("Gen_Registry.v", text)
-    js = {"sentinel": sentinel, "lookup_ok": lookup_ok, "configure_features": feats, "configure_generic": generic, "confighin": hin,
+    js = {"sentinel": sentinel, "lookup_ok": lookup_ok, "entries_ok": entries_ok, "dispatch_ok": dispatch_ok, "configure_features": feats, "configure_generic": generic, "confighin": hin,
           "registries": {k: {"kind": regs[k]["kind"], "names": regs[k]["names"], "ptrs": regs[k]["ptrs"], "lex_ok": regs[k]["lex_ok"]} for k in regs},
           "options": opts, "notes": notes}
     json.dump(js, open(os.path.join(run.scratch, "consts_registry.json"), "w"), indent=1)
